@@ -139,7 +139,7 @@ func Handshake(cc, sc *tls.Config, prep func(n *Net)) *Session {
 	s.Client.Conn = tls.Client(cp, cc)
 	s.Server.Conn = tls.Server(sp, sc)
 	var wg sync.WaitGroup
-	run := func(side *Side) {
+	run := func(side *Side, party int) {
 		defer wg.Done()
 		p, msg, site := ev.Try(func() { side.Err = side.Conn.Handshake() })
 		if p {
@@ -153,11 +153,14 @@ func Handshake(cc, sc *tls.Config, prep func(n *Net)) *Session {
 		}
 		side.OKDone = true
 		side.State = side.Conn.ConnectionState()
+		n.SetIdle(party, true)
 	}
 	wg.Add(2)
-	go run(&s.Server)
-	run(&s.Client)
+	go run(&s.Server, 1)
+	run(&s.Client, 0)
 	wg.Wait()
+	n.SetIdle(0, false)
+	n.SetIdle(1, false)
 	return s
 }
 
